@@ -340,7 +340,7 @@ static std::string stepLine(State& s, const std::vector<std::string>& w)
     if (w[0] == "dec" && w.size() >= 3)
     {
         auto& slot = s.decs[w[1]];
-        if (w[2] == "feed" && w.size() == 4)
+        if ((w[2] == "feed" || w[2] == "feedll") && w.size() == 4)  // feedll: same real decoder; the driver answers from the low-level model
         {
             Bytes b;
             if (!parseBytes(w[3], b)) return "bad-op";
@@ -380,7 +380,7 @@ static std::string stepLine(State& s, const std::vector<std::string>& w)
             }
             return out;
         }
-        if (w[2] == "pending" && w.size() == 3) return showPending(slot);
+        if ((w[2] == "pending" || w[2] == "pendingll") && w.size() == 3) return showPending(slot);
         if (w[2] == "reprint" && w.size() == 3) return showPackets(slot.last);
         if (w[2] == "destroy" && w.size() == 3)
         {
